@@ -24,13 +24,23 @@ import numpy as np
 from runner import Infra
 
 ID = "C17"
-LEAN_MODULES = ["PyYetiVerif.Props.C17", "PyYetiVerif.Audit.C17"]
+LEAN_MODULES = ["PyYetiVerif.Props.C17", "PyYetiVerif.Props.C17Conv", "PyYetiVerif.Props.C17Stab",
+                "PyYetiVerif.Props.C17Cdf", "PyYetiVerif.Audit.C17"]
 AUDIT_FILE = "PyYetiVerif/Audit/C17.lean"
 THEOREMS = [
     "PyYetiVerif.C17." + n
     for n in (
         "newmark_is_documented newmark_central_differences newmark_consistent newmark_startup_defect "
-        "newmark_startup_exact_iff newmark_stable_scalar massless_ok cdf_is_documented cdf_diag_eq_unc"
+        "newmark_startup_exact_iff newmark_stable_scalar massless_ok cdf_is_documented cdf_diag_eq_unc "
+        # Props/C17Conv.lean: global convergence of the scalar scheme
+        "newmark_run_is_sequence newmark_error_recursion newmark_truncation_bound newmark_startup_error_bound "
+        "newmark_converges_scalar newmark_converges_scalar_second_order "
+        # Props/C17Stab.lean: energy-method stability (scalar and full matrices), modal reduction, massless rows
+        "newmark_energy_identity newmark_power_bounded_scalar newmark_energy_stable newmark_free_response_bounded "
+        "newmark_stable_full newmark_stable_modal massless_rows_quasistatic rf_rows_static "
+        # Props/C17Cdf.lean: alpha and the meaning of one cd-as-force step
+        "cdf_alpha_identity cdf_alpha_transpose_solve cdf_alpha_transposed_variant_differs "
+        "cdf_step_is_exact_for_interpolated_damping_force cdf_run_is_unc_with_damping_force"
     ).split()
 ]
 TRUSTED = [
